@@ -7,6 +7,10 @@ import Abyss.Props.RaBufMap
 import Abyss.Props.C03Rb
 import Abyss.Props.C03Gen
 import Abyss.Lemmas.FlushGenL
+import Abyss.Props.C04Adapt
+#print axioms Abyss.mapIsDirty_eq
+#print axioms Abyss.mapIsDirty_apply
+#print axioms Abyss.apiIsDirty_apply
 #print axioms Abyss.Buf.dbApplyAll_eq_dbSync
 #print axioms Abyss.dbApplyAll_eq_applyList
 #print axioms Abyss.RaBuf.C03_generated_flush
